@@ -231,11 +231,11 @@ Section Knn.
 
   (* ---------------- k selection ---------------- *)
 
-  (* KNNSupervisedOPF._learn: max_acc = 0.0; for k: if acc > max_acc: max_acc = acc; best_k = k *)
+  (* KNNSupervisedOPF._learn: max_acc = 0.0; best_k = 1; for k: if acc > max_acc: max_acc = acc; best_k = k *)
   Definition knn_select (accs : list W) : option nat :=
     snd (fold_left (fun st ka => let '(mx, best) := st in
                                  if ltb mx (snd ka) then (snd ka, Some (fst ka)) else st)
-                   (combine (seq 1 (length accs)) accs) (zero, None)).
+                   (combine (seq 1 (length accs)) accs) (zero, Some 1)).
 
   (* UnsupervisedOPF._best_minimum_cut: min_cut = FLOAT_MAX; for k: if min_cut != 0.0: cut = ...; if cut < min_cut: ...
      [cuts] lists the cut of every k in min_k..; the fold ignores entries after an exact 0 was recorded *)
